@@ -38,7 +38,7 @@ UnsubSet ==
   CASE Scn \in {"subscriber"} -> {VS(TopicT)}
     [] Scn = "handshake" -> {VS(TopicT), NoneV}
     [] OTHER -> {}
-Ids == 1..MaxId
+Ids == 1..(IF MaxId > 6 THEN 6 ELSE MaxId)     \* identifiers the modelled broker may acknowledge
 Ack(t, i) == [t |-> t, id |-> i]
 InPub(q, i, dup) == [t |-> "PUBLISH", dup |-> dup, qos |-> q, retain |-> 0, topic |-> TopicT, id |-> IF q = 0 THEN -1 ELSE i, payload |-> <<>>]
 InSet ==
@@ -69,6 +69,14 @@ Next ==
     \/ Lost(a, "ConnectionDone")
     \/ \E tm \in timers : tm.a = a /\ FireTimer(tm)
 Spec == Init /\ [][Next]_vars
+\* for behaviour generation (U3): steps that are refused for the state or ignored are left out, so that random walks of
+\* the specification spend their length on transitions that do something (the refused / ignored ones are covered
+\* exhaustively by the enumerating drivers)
+Useful == /\ ~(stim'.op = "recv" /\ fx' = <<>>)
+          /\ ~(\E i \in 1..Len(fx') : fx'[i].k = "fire" /\ fx'[i].ok = 0 /\ fx'[i].exc = "MQTTStateError" /\ stim'.op # "recv")
+          /\ fx' # <<Raise("MQTTStateError")>>
+          /\ ~(stim'.op = "set" /\ conn' = conn)
+SimSpec == Init /\ [][Next /\ Useful]_vars
 
 AllReqs(a) == SeqToSet(sess[a].queue) \cup SeqToSet(sess[a].pub) \cup SeqToSet(sess[a].rel) \cup SeqToSet(sess[a].sub) \cup SeqToSet(sess[a].unsub)
 Bound == /\ nd <= MaxD
